@@ -130,6 +130,16 @@ def registry_rules(repo: Repo, rep, spec, P: str):
                 rep.violation(f"{P}.rebind", construct, f"{name} = {norm(c.assigns[name])[:60]}",
                               "hand-written class re-binds a generated controller/option name",
                               f"{c.file.rel}:{c.assign_stmts[name].lineno}")
+        for name, val in c.assigns.items():
+            if isinstance(val, (ast.Attribute, ast.Name)) and not name.startswith("_"):
+                ref = norm(val).split(".")[-1]
+                owner_txt = norm(val).split(".")[0]
+                if ref in gen_names and (owner_txt in (f"Base{modname}", c.name, "self", "cls") or isinstance(val, ast.Name)):
+                    rep.violation(f"{P}.additions", construct, f"{name} = {norm(val)}",
+                                  f"`{name}` binds a second name to the generated controller/option `{ref}`: ModuleMeta scans dir(cls), counts the "
+                                  "alias as another controller, renames the shared descriptor and shifts the numbering of every later "
+                                  "controller (stored values are then assigned to the wrong controllers)",
+                                  f"{c.file.rel}:{c.assign_stmts[name].lineno}")
         for d in own_controllers(repo, c):
             if d.kind == "proxy":
                 rep.ok(f"{P}.additions", construct, d.name, "per-instance proxy controller", nontrivial=False)
